@@ -33,6 +33,19 @@ theorem C12_gen_sharedWrites : Generated.servePathSharedWrites = some [] := by d
     catch every `BaseException` (they are bare) and do not re-raise: `Cfg.catchAll`. -/
 theorem C12_gen_catchAll : Generated.servePathCatchAll = some (true, true) := by decide
 
+/- ===== the server and its address (tools/extractors/serveraddr.py; model JRV.Model.ServerContend) ===== -/
+
+/-- `SimpleJSONRPCServer.server_close` does nothing besides the base class's `server_close` — it closes the server's own
+    listening socket (with `pooledServerClose`: the pooled one shuts its own loop down, closes its own socket, stops its own
+    pool).  In particular nothing in it names the address: the `closeSocket` step of `A` and the `bStep`s of a failed
+    contender (`stepW`) touch their own socket and pool only — `C12_contender_frame`. -/
+theorem C12_gen_plainServerClose : Generated.plainServerCloseExtra = some [] := by decide
+
+/-- The failure path of the constructor (`TCPServer.__init__`: `except: self.server_close(); raise`) finds the pool and the
+    serving flag of a `PooledJSONRPCServer` in place: they are stored before the base constructor runs — `bStep` of a pooled
+    contender reads `__serving` (false) and stops its own pool. -/
+theorem C12_gen_failedConstructorCloses : Generated.pooledInitStoresBeforeBase = some true := by decide
+
 /-- The model configuration that the extracted facts stand for. -/
 def cfgOfFacts (plain : Bool) : Option Cfg := do
   let fp ← Generated.servePathSharedWrites
